@@ -38,8 +38,8 @@ func VerifC16Reader() {
 	prefixed := binary.AppendUvarint(nil, uint64(H))
 	prefixed = append(prefixed, header...)
 
-	maxK := verifParam("maxK", 2)
-	K := 1 + verifChoice("pieces", maxK)
+	minK, maxK := verifParam("minK", 1), verifParam("maxK", 2)
+	K := minK + verifChoice("pieces", maxK-minK+1)
 	fileLens := []int{0, 2}
 	if verifParam("files", 0) == 1 {
 		fileLens = []int{0, 1, 3}
@@ -90,7 +90,10 @@ func VerifC16Reader() {
 	// plus (last alternative) one read of the whole stream from offset 0
 	base := len(prefixed) - 2
 	nOff := total - base + 2
-	off := verifChoice("off", nOff+1)
+	off := nOff
+	if verifParam("windows", 1) == 1 {
+		off = verifChoice("off", nOff+1)
+	}
 	L := 0
 	if off == nOff {
 		off, L = 0, total+1
